@@ -49,6 +49,8 @@ def Clipped : VEv K → Prop
   | .setFlowsLit _ => False
   | .frac _ => False
   | .lever _ _ => False
+  | .bubbleLimited _ _ => False
+  | .dewLimited _ _ => False
   | _ => True
 
 /-- **Non-negativity with no hypothesis on the solver** for the paths that only use clipped flows
@@ -498,6 +500,8 @@ theorem vlleStep_nonneg (c : Cls K) (hlle : ∀ i ∈ c.lle, i < c.n)
                   cases hl : leverSplit s.2 x0 y with
                   | error e => rw [hl] at hf; cases hf
                   | ok s0 => rw [hl] at hf; cases hf; rfl
+                case bubbleLimited V y => cases hf; rfl
+                case dewLimited V x => cases hf; rfl
                 case condense f =>
                   cases hc : corrFrac f with
                   | none => rw [hc] at hf; cases hf; rfl
@@ -536,6 +540,160 @@ theorem vlle_nonneg (c : Cls K) (hlle : ∀ i ∈ c.lle, i < c.n) (r : Rows K) (
   (foldlM_inv_dep (fun st : VlleSt K => RowsNonneg c st.rows ∧ ∀ t, st.total = some t → 0 ≤ t) (VlleEvOK c)
     (vlleStep c) (fun s b s' hs hq hf => vlleStep_nonneg c hlle s b s' hs hq hf) evs _ _
     ⟨hr, fun t h => by cases h⟩ hev h).1
+
+/-! ## The bubble- / dew-limited branches of `set_TV` / `set_PV` -/
+
+/-- **The per-chemical cap makes the old monitored hypothesis true.**  In the bubble-limited branch the code
+writes `v = min(y_bubble·F_mol·V, mol)`, in the dew-limited branch `l = min(x_dew·F_mol·(1−V), mol)`, `v = mol − l`.
+For *every* `V` and every composition the capped side never exceeds what is there, so the other phase
+(`mol − v`, resp. `mol − l`) is non-negative with no hypothesis at all; the capped side itself is non-negative
+as soon as `0 ≤ V` (resp. `V ≤ 1`), `0 ≤ F_mol` and the composition is non-negative. -/
+theorem limited_cap (reg : VReg K) (V : K) (y x : List K) (i : Nat) (hm : 0 ≤ get reg.mol i) :
+    0 ≤ get reg.mol i - bubbleV reg V y i ∧ 0 ≤ get reg.mol i - dewL reg V x i
+    ∧ (0 ≤ V → 0 ≤ reg.fmol → 0 ≤ get y i → 0 ≤ bubbleV reg V y i)
+    ∧ (V ≤ 1 → 0 ≤ reg.fmol → 0 ≤ get x i → 0 ≤ dewL reg V x i) :=
+  ⟨by linarith [bubbleV_le reg V y i], by linarith [dewL_le reg V x i],
+   fun hV hF hy => bubbleV_nonneg reg V y i hm hV hF hy, fun hV hF hx => dewL_nonneg reg V x i hm hV hF hx⟩
+
+/-- The vapour flows of the bubble-limited branch satisfy the hypothesis `0 ≤ v ≤ mol` that `set_flows` with an
+un-clipped source needs (what used to be monitored is now a consequence of the cap). -/
+theorem bubble_limited_meets_setflows_hypothesis (c : Cls K) (reg : VReg K) (V : K) (y : List K)
+    (hmol : ∀ i < c.n, 0 ≤ get reg.mol i) (h : EvOK c reg (.bubbleLimited V y)) :
+    EvOK c reg (.setFlowsLit (tab c.n (bubbleV reg V y))) := by
+  obtain ⟨hV, hF, hy⟩ := h
+  intro i hi hm
+  rw [get_tab _ _ hi]
+  exact ⟨bubbleV_nonneg reg V y i (hmol i hi) hV hF (hy i hi hm), bubbleV_le reg V y i⟩
+
+theorem dew_limited_meets_setflows_hypothesis (c : Cls K) (reg : VReg K) (V : K) (x : List K)
+    (hmol : ∀ i < c.n, 0 ≤ get reg.mol i) (h : EvOK c reg (.dewLimited V x)) :
+    EvOK c reg (.setFlowsLit (tab c.n fun i => get reg.mol i - dewL reg V x i)) := by
+  obtain ⟨hV, hF, hx⟩ := h
+  intro i hi hm
+  rw [get_tab _ _ hi]
+  have h1 := dewL_nonneg reg V x i (hmol i hi) hV hF (hx i hi hm)
+  have h2 := dewL_le reg V x i
+  exact ⟨by linarith, by linarith⟩
+
+/-- `_F_mol ≥ 0` (a hypothesis of the lever and limited steps) follows from non-negative flows and
+non-negative `N_solutes` of the heavy chemicals. -/
+theorem vleSetup_fmol_nonneg (c : Cls K) (r : Rows K) (hg : ∀ i < c.n, 0 ≤ get r.g i) (hl : ∀ i < c.n, 0 ≤ get r.l i)
+    (hhs : ∀ h ∈ c.hs, 0 ≤ h) : 0 ≤ (vleSetup c r).2.fmol := by
+  have hall : ∀ i, 0 ≤ get (tab c.n fun i => get r.l i + get r.g i) i := by
+    intro i
+    by_cases hi : i < c.n
+    · rw [get_tab _ _ hi]; exact add_nonneg (hl i hi) (hg i hi)
+    · rw [get_tab_ge _ _ (not_lt.mp hi)]
+  unfold vleSetup
+  simp only
+  split
+  · simp only
+    have h1 := sumOver_nonneg (vleIndex c (tab c.n fun i => get r.l i + get r.g i)) _ (fun i _ => hall i)
+    have h2 := sumOver_nonneg c.light _ (fun i _ => hall i)
+    have h3 : (0 : K) ≤ ((c.heavy.zip c.hs).map fun p =>
+        get (tab c.n fun i => get r.l i + get r.g i) p.1 * p.2).foldl (· + ·) 0 := by
+      apply foldl_add_ge
+      intro x hx
+      obtain ⟨p, hp, rfl⟩ := List.mem_map.mp hx
+      exact mul_nonneg (hall p.1) (hhs p.2 (List.of_mem_zip hp).2)
+    linarith
+  · exact le_refl _
+
+/-! ## Histories: several calls on one stream through the same cached solver object -/
+
+theorem vleCallC_eq (c : Cls K) (cache : Option VCache) (hc : VCacheOK c cache) (r : Rows K) (evs : List (VEv K)) :
+    (vleCallC c cache r evs).1 = vleCall c r evs ∧ VCacheOK c (vleCallC c cache r evs).2 := by
+  obtain ⟨h1, h2⟩ := vleSetupC_eq c cache hc r
+  exact ⟨by simp only [vleCallC, vleCall, h1], h2⟩
+
+/-- **A history is a sequence of independent calls.**  Whatever the stream holds before each call (the result
+of the previous call edited in any way: material added to the "wrong" phase, chemicals added or removed), the
+index `_setup` re-uses from the previous call is the one a fresh VLE object would compute, so call `k` of a
+history behaves exactly like a first call on the same flows. -/
+theorem vle_history_independent (c : Cls K) (cache : Option VCache) (hc : VCacheOK c cache)
+    (hist : List (Rows K × List (VEv K))) :
+    vleHistory c cache hist = hist.map fun p => vleCall c p.1 p.2 := by
+  induction hist generalizing cache with
+  | nil => rfl
+  | cons p rest ih =>
+    obtain ⟨r, evs⟩ := p
+    obtain ⟨h1, h2⟩ := vleCallC_eq c cache hc r evs
+    simp only [vleHistory, List.map_cons, h1, ih _ h2]
+
+/-- **Conservation after EVERY call of a history** (not only the first). -/
+theorem vle_history_conserves (c : Cls K) (hdisj : ∀ i, ¬ (i ∈ c.light ∧ i ∈ c.heavy))
+    (hist : List (Rows K × List (VEv K))) (k : Nat) (r : Rows K) (evs : List (VEv K)) (r' : Rows K) (reg' : VReg K)
+    (hk : hist[k]? = some (r, evs)) (hres : (vleHistory c none hist)[k]? = some (.ok (r', reg'))) :
+    (∀ i < c.n, get r'.g i + get r'.l i = get r.g i + get r.l i) ∧ r'.L = r.L ∧ r'.s = r.s := by
+  rw [vle_history_independent c none trivial, List.getElem?_map, hk] at hres
+  simp only [Option.map_some, Option.some.injEq] at hres
+  exact vle_conserves c hdisj r evs r' reg' hres
+
+/-- **Placement after EVERY call of a history**: gas-only chemicals are entirely in `g`, liquid/solid-only
+chemicals are absent from `g`, after each call that returns — in particular after a call that re-uses the
+index of the previous one although material was put into the "wrong" phase in between. -/
+theorem vle_history_placement (c : Cls K) (hist : List (Rows K × List (VEv K))) (k : Nat)
+    (r : Rows K) (evs : List (VEv K)) (r' : Rows K) (reg' : VReg K)
+    (hk : hist[k]? = some (r, evs)) (hres : (vleHistory c none hist)[k]? = some (.ok (r', reg')))
+    (hg : ∀ i < c.n, 0 ≤ get r.g i) (hl : ∀ i < c.n, 0 ≤ get r.l i) {i : Nat} (hi : i < c.n) (hnv : i ∉ c.vle) :
+    (i ∈ c.light → i ∉ c.heavy → get r'.l i = 0 ∧ get r'.g i = get r.g i + get r.l i)
+    ∧ (i ∈ c.heavy → i ∉ c.light → get r'.g i = 0 ∧ get r'.l i = get r.l i + get r.g i) := by
+  rw [vle_history_independent c none trivial, List.getElem?_map, hk] at hres
+  simp only [Option.map_some, Option.some.injEq] at hres
+  exact ⟨fun h1 h2 => light_all_gas c r hg hl evs r' reg' hres hi h1 h2 hnv,
+         fun h1 h2 => heavy_no_gas c r hg hl evs r' reg' hres hi h1 h2 hnv⟩
+
+/-- **Non-negativity after EVERY call of a history.** -/
+theorem vle_history_nonneg (c : Cls K) (hist : List (Rows K × List (VEv K))) (k : Nat)
+    (r : Rows K) (evs : List (VEv K)) (r' : Rows K) (reg' : VReg K)
+    (hk : hist[k]? = some (r, evs)) (hres : (vleHistory c none hist)[k]? = some (.ok (r', reg')))
+    (hg : ∀ i < c.n, 0 ≤ get r.g i) (hl : ∀ i < c.n, 0 ≤ get r.l i)
+    (hev : ∀ e ∈ evs, EvOK c (vleSetup c r).2 e) : ∀ i < c.n, 0 ≤ get r'.g i ∧ 0 ≤ get r'.l i := by
+  rw [vle_history_independent c none trivial, List.getElem?_map, hk] at hres
+  simp only [Option.map_some, Option.some.injEq] at hres
+  exact vle_nonneg c r hg hl evs hev r' reg' hres
+
+/-- What an SLE object remembers stays consistent over any history of `_setup` calls (any flows, any solutes,
+including calls that raise). -/
+theorem sle_history_cache_consistent (c : Cls K) (hist : List (Rows K × Nat)) :
+    SCacheOK c (hist.foldl (fun k p => (sleSetupC c k p.1 p.2).1) {}) := by
+  have : ∀ (k0 : SCache), SCacheOK c k0 → SCacheOK c (hist.foldl (fun k p => (sleSetupC c k p.1 p.2).1) k0) := by
+    induction hist with
+    | nil => intro k0 h; exact h
+    | cons p rest ih => intro k0 h; exact ih _ (sleSetupC_ok c k0 h p.1 p.2)
+  exact this {} (fun nz h => by cases h)
+
+/-- After a `_setup` that returns, for an LLE-capable solute: either the object is in pure-solute mode (the
+melting-point setters run; they do not use the index) or the solute is a member of the index
+`_update_solubility` will use — whether the index was rebuilt or re-used from an earlier call with other
+amounts or another solute.  This is the hypothesis of `sle_nonneg`. -/
+theorem sle_setup_solute_in_index (c : Cls K) (cache : SCache) (hc : SCacheOK c cache) (r : Rows K) (j : Nat)
+    (hj : j < c.n) (hlle : j ∈ c.lle) (hok : (sleSetupC c cache r j).2 = .ok ()) :
+    (sleSetupC c cache r j).1.pure = true ∨ j ∈ (sleSetupC c cache r j).1.idx := by
+  unfold sleSetupC at hok ⊢
+  simp only at hok ⊢
+  split
+  · rename_i hnz
+    simp only [hnz, if_true] at hok
+    have hjnz : j ∈ nzKeys c (tab c.n fun i => get r.l i + get r.s i) := by
+      unfold nzKeys; exact List.mem_filter.mpr ⟨List.mem_range.mpr hj, hnz⟩
+    split
+    · rename_i hk
+      right
+      rw [hc _ hk]
+      exact List.mem_filter.mpr ⟨hlle, by simpa using hjnz⟩
+    · rename_i hk
+      simp only [hk, if_false] at hok
+      split
+      · left; rfl
+      · rename_i hlen
+        simp only [hlen, if_false] at hok
+        split
+        · rename_i hm; right; exact hm
+        · rename_i hm; simp only [hm, if_false] at hok; cases hok
+  · rename_i hnz
+    simp only [hnz] at hok
+    cases hok
 
 /-! ## The lever rule as found (defect C03-1) -/
 
@@ -637,6 +795,43 @@ def evsV : List (VlleEv ℚ) :=
 example : (match vlleRun cEx rV evsV with
     | .ok st => (st.rows.g, st.rows.l, st.rows.L, st.total) | .error _ => ([], [], [], none))
     = ([0, 0, 1/2, 0], [22/13, 1, 0, 5/13], [17/13, 1, 0, 8/13], none) := by
+  decide +kernel
+
+/-- a history on one VLE object: a solver call; then N2 (gas-only) put into the liquid and the bubble-limited
+branch with the index re-used; then ethanol removed and glucose (liquid-only) put into the gas, dew-limited
+branch with the index rebuilt.  After every call N2 is entirely in `g` and glucose entirely in `l`. -/
+def histEx : List (Rows ℚ × List (VEv ℚ)) :=
+  [(rEx, [.solve [1, 1/2, 0, 0], .setFlowsReg]),
+   ({ g := [1, 1/2, 1/2, 0], l := [1, 3/2, 3/4, 5/4], L := [0, 0, 0, 0], s := [0, 0, 0, 0] },
+    [.bubbleLimited (1/2) [3/4, 1/4, 0, 0]]),
+   ({ g := [1, 0, 1/2, 1], l := [0, 0, 3/4, 5/4], L := [0, 0, 0, 0], s := [0, 0, 0, 0] },
+    [.dewLimited (1/2) [1/4, 3/4, 0, 0]])]
+
+example : ((vleHistory cEx none histEx).map fun r =>
+      match r with | .ok (r', reg) => (r'.g, r'.l, reg.idx) | .error _ => ([], [], []))
+    = [([1, 1/2, 1/2, 0], [1, 3/2, 0, 5/4], [0, 1]),
+       ([63/32, 21/32, 5/4, 0], [1/32, 43/32, 0, 5/4], [0, 1]),
+       ([23/32, 0, 5/4, 0], [9/32, 0, 0, 9/4], [0])] := by
+  decide +kernel
+
+/-- the second `_setup` of that history re-uses the stored index, the third rebuilds it -/
+example : (vleSetupC cEx (vleSetupC cEx none rEx).2.1
+      { g := [1, 1/2, 1/2, 0], l := [1, 3/2, 3/4, 5/4], L := [0, 0, 0, 0], s := [0, 0, 0, 0] }).2.2 = true
+    ∧ (vleSetupC cEx (vleSetupC cEx none rEx).2.1
+      { g := [1, 0, 1/2, 1], l := [0, 0, 3/4, 5/4], L := [0, 0, 0, 0], s := [0, 0, 0, 0] }).2.2 = false := by
+  decide +kernel
+
+example : EvOK cEx (vleSetup cEx rEx).2 (.bubbleLimited (1/2) [3/4, 1/4, 0, 0])
+    ∧ EvOK cEx (vleSetup cEx rEx).2 (.dewLimited (1/2) [1/4, 3/4, 0, 0]) := by
+  have hidx : ∀ i, i ∈ (vleSetup cEx rEx).2.idx → i = 0 ∨ i = 1 := by decide +kernel
+  refine ⟨⟨by norm_num, by decide +kernel, ?_⟩, ⟨by norm_num, by decide +kernel, ?_⟩⟩ <;>
+  · intro i _ hm
+    rcases hidx i hm with rfl | rfl <;> decide +kernel
+
+/-- SLE object with history: solvent + solute, then the same chemicals with another solute amount (index re-used) -/
+example : (sleSetupC cEx (sleSetupC cEx {} rSle 3).1
+      { g := [0, 0, 0, 0], l := [3, 1, 0, 5], L := [0, 0, 0, 0], s := [0, 0, 0, 2] } 3)
+    = ({ nz := some [0, 1, 3], idx := [0, 1, 3], pure := false }, .ok ()) := by
   decide +kernel
 
 end NonVacuity
